@@ -122,9 +122,73 @@ def step_contract(sym):
     return gen
 
 
+REF = r"""
+// ---- bit-level reference for native replay only (never under contract): N-bit two's complement on a plain array of bits
+#include <cstring>
+namespace vpw {
+    template<int NB> struct bits { unsigned char b[NB]; };
+    template<class L, int N, class W> bits<N * int(sizeof(L)) * 8> load(W const& w)
+    {
+        static_assert(sizeof(W) == N * sizeof(L), "wide_integer storage is not N limbs");
+        L l[N]; std::memcpy(l, &w, sizeof l);
+        bits<N * int(sizeof(L)) * 8> r{};
+        for (int i = 0; i < N; ++i) for (int j = 0; j < int(sizeof(L)) * 8; ++j) r.b[i * int(sizeof(L)) * 8 + j] = (l[i] >> j) & 1;
+        return r;
+    }
+    template<class W, class L, int N> W make(L const (&l)[N])
+    {
+        static_assert(sizeof(W) == N * sizeof(L), "wide_integer storage is not N limbs");
+        W w; std::memcpy(static_cast<void*>(&w), l, sizeof l); return w;
+    }
+    template<int NB> bool same(bits<NB> const& x, bits<NB> const& y) { return std::memcmp(x.b, y.b, NB) == 0; }
+    template<int NB> bits<NB> add(bits<NB> const& x, bits<NB> const& y, int c = 0)
+    { bits<NB> r{}; for (int i = 0; i < NB; ++i) { int t = x.b[i] + y.b[i] + c; r.b[i] = t & 1; c = t >> 1; } return r; }
+    template<int NB> bits<NB> inv(bits<NB> const& x) { bits<NB> r{}; for (int i = 0; i < NB; ++i) r.b[i] = !x.b[i]; return r; }
+    template<int NB> bits<NB> sub(bits<NB> const& x, bits<NB> const& y) { return add(x, inv(y), 1); }
+    template<int NB> bits<NB> neg(bits<NB> const& x) { bits<NB> z{}; return sub(z, x); }
+    template<int NB> bits<NB> one() { bits<NB> r{}; r.b[0] = 1; return r; }
+    template<int NB> bits<NB> bit_and(bits<NB> const& x, bits<NB> const& y) { bits<NB> r{}; for (int i = 0; i < NB; ++i) r.b[i] = x.b[i] & y.b[i]; return r; }
+    template<int NB> bits<NB> bit_or(bits<NB> const& x, bits<NB> const& y) { bits<NB> r{}; for (int i = 0; i < NB; ++i) r.b[i] = x.b[i] | y.b[i]; return r; }
+    template<int NB> bits<NB> bit_xor(bits<NB> const& x, bits<NB> const& y) { bits<NB> r{}; for (int i = 0; i < NB; ++i) r.b[i] = x.b[i] ^ y.b[i]; return r; }
+    template<int NB> bits<NB> shl(bits<NB> const& x, int s) { bits<NB> r{}; for (int i = 0; i < NB; ++i) r.b[i] = (i - s >= 0 && i - s < NB) ? x.b[i - s] : 0; return r; }
+    template<int NB> bits<NB> shr(bits<NB> const& x, int s, bool is_signed)
+    { bits<NB> r{}; for (int i = 0; i < NB; ++i) r.b[i] = (i + s < NB) ? x.b[i + s] : (is_signed ? x.b[NB - 1] : 0); return r; }
+    template<int NB> bool less(bits<NB> const& x, bits<NB> const& y, bool is_signed)
+    {
+        if (is_signed && x.b[NB - 1] != y.b[NB - 1]) return x.b[NB - 1];
+        for (int i = NB - 1; i >= 0; --i) if (x.b[i] != y.b[i]) return y.b[i];
+        return false;
+    }
+    template<int NB> bits<NB> from_ll(long long v, bool v_signed)
+    { bits<NB> r{}; unsigned long long u = static_cast<unsigned long long>(v); for (int i = 0; i < NB; ++i) r.b[i] = i < 64 ? ((u >> i) & 1) : (v_signed && v < 0); return r; }
+    template<int NB> unsigned long long low64(bits<NB> const& x) { unsigned long long u = 0; for (int i = 0; i < 64 && i < NB; ++i) u |= static_cast<unsigned long long>(x.b[i]) << i; return u; }
+}
+"""
+
+
+def storage(D, signed, limb_bits):
+    need = D + (1 if signed else 0)
+    return -(-need // limb_bits)          # limbs
+
+
+def chk_shim(name, Wt, limb_cxx, limb_short, N, signed, kind, body_ref, extra_params=(), second=False):
+    """extern "C" int <name>(limbs of a [, limbs of b] [, extras]): 1 iff the real operator's result equals the bit-level reference"""
+    ps = ['%s a%d' % (limb_cxx, i) for i in range(N)]
+    if second:
+        ps += ['%s b%d' % (limb_cxx, i) for i in range(N)]
+    ps += ['%s %s' % (t, n) for t, n in extra_params]
+    pre = '%s la[%d] = {%s}; %s a = vpw::make<%s>(la); auto A = vpw::load<%s, %d>(a); constexpr bool S = %s; (void)S; (void)A;' % (
+        limb_cxx, N, ', '.join('a%d' % i for i in range(N)), Wt, Wt, limb_cxx, N, 'true' if signed else 'false')
+    if second:
+        pre += ' %s lb[%d] = {%s}; %s b = vpw::make<%s>(lb); auto B = vpw::load<%s, %d>(b);' % (
+            limb_cxx, N, ', '.join('b%d' % i for i in range(N)), Wt, Wt, limb_cxx, N)
+    types = [limb_short] * (N * (2 if second else 1)) + [{'int': 'i32', 'long long': 'i64l', 'unsigned long long': 'u64l'}.get(t, t) for t, _ in extra_params]
+    return 'extern "C" int %s(%s) { %s %s }\n' % (name, ', '.join(ps), pre, body_ref), types
+
+
 def plan(tier):
     thorough = tier == 'thorough'
-    src = [KERNEL_HEAD]
+    src = [KERNEL_HEAD, REF]
     jobs = []
     kname = 'C10'
     inst = [(200, 'int', True, 'i32')]
@@ -133,53 +197,74 @@ def plan(tier):
     for (D, narrow, signed, nm) in inst:
         Wt = 'cnl::wide_integer<%d, %s>' % (D, narrow)
         tag = 'w%d_%s' % (D, nm)
+        lb = {'i32': 32, 'u32': 32, 'i16': 16, 'u64': 64}[nm]
+        limb_short = 'u%d' % lb
+        limb_cxx = cxx(limb_short)
+        N = storage(D, signed, lb)
+        yes = lambda *a: ('value', 1)
+
+        def chk(opname, body, extra=(), second=False):
+            cname = 'vp_chk_%s_%s' % (opname, tag)
+            text, types = chk_shim(cname, Wt, limb_cxx, limb_short, N, signed, opname, body, extra, second)
+            src.append(text)
+            return dict(shim=cname, shim_types=types, oracle=yes)
         ops = [('add', '+'), ('subtract', '-'), ('and', '&'), ('or', '|'), ('xor', '^')]
         for name, sym in ops:
             sname = 'vp_%s_%s' % (name, tag)
             src.append('extern "C" void %s(%s const* a, %s const* b, %s* r) { *r = *a %s *b; }\n' % (sname, Wt, Wt, Wt, sym))
+            ref = {'+': 'vpw::add(A, B)', '-': 'vpw::sub(A, B)', '&': 'vpw::bit_and(A, B)', '|': 'vpw::bit_or(A, B)', '^': 'vpw::bit_xor(A, B)'}[sym]
+            rp = chk(name, 'auto r = a %s b; return vpw::same(vpw::load<%s, %d>(r), %s);' % (sym, limb_cxx, N, ref), second=True)
             jobs.append(Job('%s.%s.%s' % (PROP, name, tag), kname, r'^auto cnl::_impl::operator[-+&|^]<cnl::_impl::wrapper<cnl::_impl::math::wide_integer::uintwide_t<',
-                            binop_contract(sym, signed), via=sname, prop=PROP, unwind=20, timeout=900, skip_this=False, object_bits=13,
+                            binop_contract(sym, signed), via=sname, inputs=['vp_in1', 'vp_in2'], **rp, prop=PROP, unwind=20, timeout=900, skip_this=False, object_bits=13,
                             solvers=('minisat',), layer=3))
         if signed:
             sname = 'vp_neg_' + tag
             src.append('extern "C" void %s(%s const* a, %s* r) { *r = -*a; }\n' % (sname, Wt, Wt))
             jobs.append(Job('%s.negate.%s' % (PROP, tag), kname, r'^auto cnl::_impl::operator-<cnl::_impl::wrapper<cnl::_impl::math::wide_integer::uintwide_t<.*> >\(cnl::_impl::wrapper<[^()]*\) ?$|^auto cnl::_impl::operator-<cnl::_impl::wrapper<',
-                            unop_contract('-'), via=sname, prop=PROP, unwind=20, timeout=900, skip_this=False, object_bits=13, layer=3))
+                            unop_contract('-'), via=sname, inputs=['vp_in1'],
+                            **chk('neg', 'auto r = -a; return vpw::same(vpw::load<%s, %d>(r), vpw::neg(A));' % (limb_cxx, N)), prop=PROP, unwind=20, timeout=900, skip_this=False, object_bits=13, layer=3))
         # shifts: a symbolic count makes CBMC run out of memory (limb move + bit shift loops); the count is fixed per job to a boundary-rich
         # set (harness assigns the constant, so symex folds the limb loops) and the contract is proved for ALL values at that count
         counts = [1, 31, 32, 33, D - 1] if not thorough else [0, 1, 15, 16, 17, 31, 32, 33, 63, 64, 65, 100, D - 33, D - 1]
         for name, left in (('shl', True), ('shr', False)):
             sname = 'vp_%s_%s' % (name, tag)
             src.append('extern "C" void %s(%s const* a, int s, %s* r) { *r = *a %s s; }\n' % (sname, Wt, Wt, '<<' if left else '>>'))
+            rp = chk(name, 'auto r = a %s s; return vpw::same(vpw::load<%s, %d>(r), %s);' % ('<<' if left else '>>', limb_cxx, N, 'vpw::shl(A, s)' if left else 'vpw::shr(A, s, S)'), extra=[('int', 's')])
             for K in counts:
                 jobs.append(Job('%s.%s%d.%s' % (PROP, name, K, tag), kname, r'^auto cnl::_impl::operator(<<|>>)<cnl::_impl::wrapper<cnl::_impl::math::wide_integer::uintwide_t<',
                                 shift_contract(left, signed, K), via=sname, prop=PROP, unwind=20, timeout=900, skip_this=False, object_bits=13,
-                                harness_pre='vp_in2 = %d;' % K, note='shift count fixed to %d (one job per count of a boundary-rich set); all operand values' % K,
+                                harness_pre='vp_in2 = %d;' % K, inputs=['vp_in1', 'vp_in2'], **rp, note='shift count fixed to %d (one job per count of a boundary-rich set); all operand values' % K,
                                 solvers=('minisat', 'cadical'), layer=3))
         for name, sym in (('eq', '=='), ('lt', '<'), ('ge', '>=')) + ((('ne', '!='), ('le', '<='), ('gt', '>')) if thorough else ()):
             sname = 'vp_%s_%s' % (name, tag)
             src.append('extern "C" bool %s(%s const* a, %s const* b) { return *a %s *b; }\n' % (sname, Wt, Wt, sym))
+            ref = {'==': 'vpw::same(A, B)', '!=': '!vpw::same(A, B)', '<': 'vpw::less(A, B, S)', '>': 'vpw::less(B, A, S)', '<=': '!vpw::less(B, A, S)', '>=': '!vpw::less(A, B, S)'}[sym]
+            rp = chk(name, 'return (a %s b) == (%s);' % (sym, ref), second=True)
             jobs.append(Job('%s.%s.%s' % (PROP, name, tag), kname, r'^auto cnl::_impl::operator(==|!=|<=?|>=?)<cnl::_impl::wrapper<cnl::_impl::math::wide_integer::uintwide_t<',
-                            cmp_contract(sym, signed), via=sname, prop=PROP, unwind=20, timeout=900, skip_this=False, object_bits=13, layer=3))
+                            cmp_contract(sym, signed), via=sname, inputs=['vp_in0', 'vp_in1'], **rp, prop=PROP, unwind=20, timeout=900, skip_this=False, object_bits=13, layer=3))
         # construction from / conversion to built-in integers, ++ and --
         PW = r'cnl::_impl::wrapper<cnl::_impl::math::wide_integer::uintwide_t<[^()]*>, cnl::wide_tag<[^()]*> >'
         for ts in (['i64', 'u32'] + (['i8', 'u64'] if thorough else [])):
             t = T(ts)
             sname = 'vp_from_%s_%s' % (ts, tag)
             src.append('extern "C" void %s(%s v, %s* r) { *r = %s{v}; }\n' % (sname, cxx(ts), Wt, Wt))
+            src.append('extern "C" int vp_chk_from_%s_%s(%s v) { %s r{v}; return vpw::same(vpw::load<%s, %d>(r), vpw::from_ll<%d>(static_cast<long long>(v), %s)); }\n'
+                       % (ts, tag, cxx(ts), Wt, limb_cxx, N, N * lb, 'true' if t.signed else 'false'))
             jobs.append(Job('%s.from_%s.%s' % (PROP, ts, tag), kname, r'^%s::wrapper<%s>\(%s const&\)$' % (PW, dem(ts), dem(ts)),
-                            ctor_contract(t), via=sname, prop=PROP, unwind=20, timeout=600, skip_this=False, object_bits=13, layer=3))
+                            ctor_contract(t), via=sname, inputs=['vp_in1'], shim='vp_chk_from_%s_%s' % (ts, tag), shim_types=[ts], oracle=yes, prop=PROP, unwind=20, timeout=600, skip_this=False, object_bits=13, layer=3))
         for ts in (['i64', 'u16'] + (['i32', 'u64'] if thorough else [])):
             t = T(ts)
             sname = 'vp_to_%s_%s' % (ts, tag)
             src.append('extern "C" %s %s(%s const* a) { return static_cast<%s>(*a); }\n' % (cxx(ts), sname, Wt, cxx(ts)))
             jobs.append(Job('%s.to_%s.%s' % (PROP, ts, tag), kname, r'^%s::operator %s<%s>\(\) const$' % (PW, dem(ts), dem(ts)),
-                            conv_contract(t), via=sname, prop=PROP, unwind=20, timeout=600, skip_this=False, object_bits=13, layer=3))
+                            conv_contract(t), via=sname, inputs=['vp_in0'],
+                            **chk('to_' + ts, 'return static_cast<%s>(a) == static_cast<%s>(vpw::low64(A));' % (cxx(ts), cxx(ts))), prop=PROP, unwind=20, timeout=600, skip_this=False, object_bits=13, layer=3))
         for name, sym in (('inc', '+'), ('dec', '-')):
             sname = 'vp_%s_%s' % (name, tag)
             src.append('extern "C" void %s(%s* a) { %s%s*a; }\n' % (sname, Wt, sym, sym))
             jobs.append(Job('%s.%s.%s' % (PROP, name, tag), kname, r'^decltype\(auto\) cnl::_impl::operator(\+\+|--)<%s >\(%s&\)$' % (PW, PW),
-                            step_contract(sym), via=sname, prop=PROP, unwind=20, timeout=600, skip_this=False, object_bits=13, layer=3))
+                            step_contract(sym), via=sname, inputs=['vp_in0'],
+                            **chk(name, 'auto r = a; %s%sr; return vpw::same(vpw::load<%s, %d>(r), vpw::%s(A, vpw::one<%d>()));' % (sym, sym, limb_cxx, N, 'add' if sym == '+' else 'sub', N * lb)), prop=PROP, unwind=20, timeout=600, skip_this=False, object_bits=13, layer=3))
     k = Kernel(kname, ''.join(src), [], 'wide_integer linear operations')
     meta = {'instantiations': len(jobs),
             'explanation': 'limbs concatenated into one W-bit vector; every limb loop closed by complete unwinding',
